@@ -190,6 +190,20 @@ CHECKS = {
               'the argument (documented capability order) and const arguments to const reference parameters (passed by value) '
               'are outside the symmetric domain. One recorded finding (const int& carries no range); three defects repaired in /repo.'),
     ),
+    'C17': dict(
+        engine='oracle-server + cell enumeration + Hypothesis permutations (harness/py/prop_C17.py, cells.py)',
+        technique='cell enumeration (restricting feature x placement x instantiation style) with an implied-verdict oracle and twins, plus metamorphic relations (never-instantiated template carrying a feature, permutation of independent declarations)',
+        category='exploration',
+        text=('Every restricting feature of the statement (clock compared with / assigned from / initialised with a floating '
+              'value, clock rate other than 0 or 1, dynamic template, non-broadcast channel, priorities) is placed at every '
+              'listed placement (conjunct positions, operand orders, all relational operators, guard and invariant, update list '
+              'positions, global and local declarations, first/last) and in five ways of entering the system; the verdict for '
+              'the affected analysis must be false. The twin without the feature makes each cell attributable. Adding a '
+              'never-instantiated template with a feature, or permuting independent declarations, must not change the verdict.'),
+        design_ref='DESIGN.md 4/C17',
+        note=('One-directional as stated. Non-constant clock rates are outside the cells (the repository\'s own test expects symbolic '
+              'support there). Three detector defects were repaired in /repo; replays of their minimal cells are run first.'),
+    ),
     'C18': dict(
         engine='rapidcheck + exhaustive loops (harness/cpp/c18.cpp)',
         technique='exhaustive enumeration over int8_t + rapidcheck property-based testing over int32_t/double against set semantics in wide arithmetic',
